@@ -20,7 +20,7 @@ TRUSTED_BASE = [
 
 class Stream:
     def __init__(self, name, stream, gen, args=(), flavours=("rel",), spec=None, spec_args=None, nontrivial=None,
-                 L=None, search_gen=None, timeout=300, model_args=None, exhaustive=False, rule="", env=None):
+                 L=None, search_gen=None, timeout=300, model_args=None, exhaustive=False, rule="", env=None, expect=None, model_case=None, tiers=None):
         self.name, self.stream, self.gen, self.args = name, stream, gen, list(args)
         self.flavours, self.spec, self.spec_args = flavours, spec, spec_args
         self.nontrivial = nontrivial or (lambda case, line: True)
@@ -28,6 +28,10 @@ class Stream:
         self.model_args = model_args
         self.exhaustive, self.rule = exhaustive, rule
         self.env = env
+        self.model_stream = None
+        self.expect = expect          # python function case -> expected line (instead of the extracted model)
+        self.model_case = model_case  # transform of the case before it is handed to the model
+        self.tiers = tiers            # None = every tier
 
 class Prop:
     def __init__(self, pid, coq, streams, level_note="", extra=None, judge=None):
@@ -100,7 +104,11 @@ def write_replay(pid, n, obj):
 def run_one_stream(ctx, s, cases, model_stream=None, flavours=None):
     """-> (disagreements [(flavour, idx, case, impl, model)], model_lines, impl_lines_by_flavour)"""
     margs = s.model_args if s.model_args is not None else s.args
-    model_lines = corr.run_stream(corr.model_cmd(model_stream or s.stream, margs), cases, timeout=s.timeout)
+    if s.expect is not None:
+        model_lines = [s.expect(c) for c in cases]
+    else:
+        mcases = [s.model_case(c) for c in cases] if s.model_case else cases
+        model_lines = corr.run_stream(corr.model_cmd(model_stream or s.model_stream or s.stream, margs), mcases, timeout=s.timeout)
     dis, impl_by = [], {}
     for fl in (flavours or s.flavours):
         hx = ctx.hx(fl, s.L)
@@ -152,6 +160,8 @@ def run_property(prop, tier, seed, replay=None):
             total_eval, distinct, traces = 0, set(), 0
             dis_all = []
             for s in prop.streams:
+                if s.tiers is not None and ctx.tier not in s.tiers:
+                    continue
                 cases = s.gen(ctx)
                 seen = set(); cases = [c for c in cases if not (c in seen or seen.add(c))]
                 if replay and replay.get("stream") == s.name:
@@ -272,9 +282,15 @@ def search(ctx, prop, known, known_hits):
         finally:
             ctx.tier = saved
         seen = set(); cases = [c for c in cases if not (c in seen or seen.add(c))]
-        ref_stream = s.spec or s.stream
+        if s.tiers is not None and "search" not in s.tiers:
+            continue
+        ref_stream = s.spec or s.model_stream or s.stream
         sargs = s.spec_args if (s.spec and s.spec_args is not None) else (s.model_args if s.model_args is not None else s.args)
-        ref = corr.run_stream(corr.model_cmd(ref_stream, sargs), cases, timeout=s.timeout)
+        if s.expect is not None:
+            ref = [s.expect(c) for c in cases]
+        else:
+            mcases = [s.model_case(c) for c in cases] if s.model_case else cases
+            ref = corr.run_stream(corr.model_cmd(ref_stream, sargs), mcases, timeout=s.timeout)
         for fl in s.flavours:
             impl = corr.run_stream([ctx.hx(fl, s.L), s.stream] + [str(a) for a in s.args], cases, timeout=s.timeout, env=s.env)
             for (i, c, a, b) in corr.compare(cases, impl, ref):
